@@ -1,13 +1,15 @@
 import PsV.Model.Fits
 import PsV.Model.FitsCodec
 import PsV.Model.FitsRead
+import PsV.Model.FitsLayout
 import PsV.Driver.Common
 /-!
 Driver for the C06 / C07 correspondences.  One output line per input line.
 
 ```
 T <id> <table>            remember the table                          → T <id> ok
-B <id> <hex>              bytes the real writer produced for table id → A <id> <decoded> <store-equal> <bytes-equal>
+B <id> <hex>              bytes the real writer produced for table id → A <id> <decoded> <store-equal> <bytes-equal> <layout-equal>
+                          (layout-equal: the independent layout specification `Layout.layoutBytes` gives the same bytes)
 V <id> <single> <mode>    encode a variant of table id                → V <id> <hex> | <model read-back dump>
 F <name> <hex>            any bytes: decode + readCore (code as is)   → F <name> undecodable | unmodelled | err <site> | ok <dump>
 R <name> <hex>            any bytes: decode + repaired reader         → R <name> undecodable | unmodelled | err <site> <cleanup> old=<verdict of the unrepaired reader> | ok <wf> old=.. | <dump>
@@ -201,7 +203,8 @@ def handle (tabs : Option Table) (ws : List String) : Option Table × String :=
       let dec := decodeFits b
       let se := decide (dec = some model)
       let be := decide (encodeFits model = b)
-      (tabs, s!"A {id} {if dec.isSome then 1 else 0} {if se then 1 else 0} {if be then 1 else 0}")
+      let le := decide (Layout.layoutBytes ext t = b)
+      (tabs, s!"A {id} {if dec.isSome then 1 else 0} {if se then 1 else 0} {if be then 1 else 0} {if le then 1 else 0}")
     | _, _ => (tabs, s!"A {id} bad-input")
   | ["V", id, single, mode] =>
     match tabs, single.toNat?, mode.toNat? with
